@@ -86,7 +86,13 @@ def _class_fn(events):
             w = ev.get("word") or "--------"
             op = w[:2]
             ins = inputs.get(ev.get("run"), set())
-            if op == "2d" and any(a.get("table") == "code" and a.get("op") == "size" and a.get("contract") not in ins for a in ev.get("acc", [])):
+            # the recorded finding, exactly: a CALL that PANICS (the callee is refused) after nothing but the code-size lookup of the
+            # non-input contract; a CALL that gets any further with a non-input (enters it, reads its code, touches its balance) is
+            # not this finding
+            foreign = [a for a in ev.get("acc", []) if a.get("table") in ("code", "state", "assets") and a.get("contract") is not None and a.get("contract") not in ins]
+            reason = ev.get("reason") or next((r.get("reason") for r in ev.get("rc", []) if r.get("kind") == "Panic"), None)
+            if (op == "2d" and foreign and all(a.get("table") == "code" and a.get("op") == "size" for a in foreign)
+                    and reason in ("ContractNotInInputs", "ContractNotFound")):
                 return CLASS_CALL
             if op == "32" and len(w) == 8 and int(w, 16) % 64 in (0, 1) and ev.get("out") == "proceed":
                 rc_reg = str((int(w, 16) >> 6) % 64)
